@@ -346,6 +346,46 @@ func runC02(c *ctx) {
 	if c.tier == "thorough" {
 		n = 4000
 	}
+	// the same values through ONE reused encoder and ONE reused serializer (one-shot calls reset them)
+	{
+		var all []interface{}
+		for ti, t := range zooTypes {
+			for i := 0; i < 6; i++ {
+				all = append(all, genValue(t, c.seed*99+uint64(i*31+ti), 10+i*20, 40))
+			}
+		}
+		_, nmAll := mergeMaps(all)
+		enc := hessian.NewEncoder(nil, nmAll)
+		ser := hessian.NewSerializer(nil, nmAll)
+		for i, v := range all {
+			for _, api := range []string{"Encoder.Encode", "Serializer.ToBytes"} {
+				in := map[string]interface{}{"op": "wellformed-reused", "index": i, "api": api}
+				var bs []byte
+				o, msg := guard(func() error {
+					var e error
+					if api == "Encoder.Encode" {
+						bs, e = enc.Encode(v)
+					} else {
+						bs, e = ser.ToBytes(v)
+					}
+					return e
+				})
+				c.eval(fmt.Sprint("reused#", i, api))
+				if o != oOK {
+					c.fail("encode on a reused instance fails", in, o.String()+": "+msg, "")
+					continue
+				}
+				h, err := hparseAll(bs)
+				if err != nil {
+					c.fail("output of a reused encoder is not exactly one well-formed Hessian 2.0 value", in, err.Error()+" bytes="+hx(trunc(bs, 100)), "")
+					continue
+				}
+				if p, cls := denotes(h, v, nmAll); p != "" {
+					c.fail("output of a reused encoder does not denote the value", in, p, cls)
+				}
+			}
+		}
+	}
 	for ti, t := range zooTypes {
 		for i := 0; i < n; i++ {
 			seed := c.seed*1000003 + uint64(i)*131 + uint64(ti)
